@@ -241,6 +241,11 @@ func init() {
 		call(fr.i, fr, 0, a[0], nil)
 		return tuple{"", false}
 	}
+	H["verifSetMapOrder"] = func(fr *frame, a []value) value {
+		fr.i.ex.mapOrder = int(asInt64(a[0]))
+		return nil
+	}
+	H["verifNative"] = func(fr *frame, a []value) value { return false }
 	H["verifEvent"] = func(fr *frame, a []value) value {
 		_, v := ifaceOf(a[1])
 		fr.i.ex.event(fr.i.ex.concStr(a[0]), v)
